@@ -31,6 +31,21 @@ func c01ReadBack(c *fw.Ctx, how string, t geom.T, g *model.G) {
 		if x.NumCoords() != 1 && g.C0 != nil {
 			c.Fail("numcoords", "%s: Point.NumCoords() = %d", how, x.NumCoords())
 		}
+		if g.C0 != nil && g.Layout != geom.NoLayout {
+			// the ordinate accessors go by the layout's semantic dimension
+			wantZ, wantM := 0.0, 0.0
+			if zi := g.Layout.ZIndex(); zi >= 0 {
+				wantZ = g.C0[zi]
+			}
+			if mi := g.Layout.MIndex(); mi >= 0 {
+				wantM = g.C0[mi]
+			}
+			got := []float64{x.X(), x.Y(), x.Z(), x.M()}
+			want := []float64{g.C0[0], g.C0[1], wantZ, wantM}
+			if !model.BitsEq(got, want) {
+				c.Fail("point-ordinate", "%s: Point X/Y/Z/M = %s, want %s (layout %s)", how, fw.Fs(got), fw.Fs(want), g.Layout)
+			}
+		}
 	case *geom.LineString:
 		if cs := x.Coords(); !coords1Eq(cs, g.C1) {
 			c.Fail("coords-mismatch", "%s: LineString.Coords() has %d coords differing from the %d set", how, len(cs), len(g.C1))
@@ -43,6 +58,14 @@ func c01ReadBack(c *fw.Ctx, how string, t geom.T, g *model.G) {
 				c.Fail("coord-i", "%s: LineString.Coord(%d) = %s, want %s", how, i, fw.Fs(x.Coord(i)), fw.Fs(g.C1[i]))
 				break
 			}
+		}
+		if g.Layout != geom.NoLayout {
+			// a sub-linestring is the corresponding slice of the coordinates
+			a := c.R.Intn(len(g.C1) + 1)
+			b := a + c.R.Intn(len(g.C1)-a+1)
+			sub := x.SubLineString(a, b)
+			c.Count("part_accessor_checked")
+			expectGeom(c, fmt.Sprintf("%s, SubLineString(%d,%d)", how, a, b), sub, &model.G{Kind: model.LineString, Layout: g.Layout, SRID: g.SRID, C1: g.C1[a:b]}, model.Opts{})
 		}
 	case *geom.LinearRing:
 		if cs := x.Coords(); !coords1Eq(cs, g.C1) {
@@ -78,12 +101,27 @@ func c01ReadBack(c *fw.Ctx, how string, t geom.T, g *model.G) {
 				break
 			}
 		}
+		if x.NumPoints() == len(g.C1) {
+			for i := range g.C1 {
+				c.Count("part_accessor_checked")
+				if !expectGeom(c, fmt.Sprintf("%s, Point(%d)", how, i), x.Point(i), &model.G{Kind: model.Point, Layout: g.Layout, SRID: g.SRID, C0: g.C1[i]}, model.Opts{}) {
+					break
+				}
+			}
+		}
 	case *geom.Polygon:
 		if cs := x.Coords(); !coords2Eq(cs, g.C2) {
 			c.Fail("coords-mismatch", "%s: Polygon.Coords() differs from the coordinates set", how)
 		}
 		if x.NumLinearRings() != len(g.C2) {
 			c.Fail("numparts", "%s: Polygon.NumLinearRings() = %d, want %d", how, x.NumLinearRings(), len(g.C2))
+			return
+		}
+		for i := range g.C2 {
+			c.Count("part_accessor_checked")
+			if !expectGeom(c, fmt.Sprintf("%s, LinearRing(%d)", how, i), x.LinearRing(i), &model.G{Kind: model.LinearRing, Layout: g.Layout, SRID: g.SRID, C1: g.C2[i]}, model.Opts{}) {
+				break
+			}
 		}
 	case *geom.MultiLineString:
 		if cs := x.Coords(); !coords2Eq(cs, g.C2) {
@@ -91,6 +129,13 @@ func c01ReadBack(c *fw.Ctx, how string, t geom.T, g *model.G) {
 		}
 		if x.NumLineStrings() != len(g.C2) {
 			c.Fail("numparts", "%s: MultiLineString.NumLineStrings() = %d, want %d", how, x.NumLineStrings(), len(g.C2))
+			return
+		}
+		for i := range g.C2 {
+			c.Count("part_accessor_checked")
+			if !expectGeom(c, fmt.Sprintf("%s, LineString(%d)", how, i), x.LineString(i), &model.G{Kind: model.LineString, Layout: g.Layout, SRID: g.SRID, C1: g.C2[i]}, model.Opts{}) {
+				break
+			}
 		}
 	case *geom.MultiPolygon:
 		if cs := x.Coords(); !coords3Eq(cs, g.C3) {
@@ -98,6 +143,13 @@ func c01ReadBack(c *fw.Ctx, how string, t geom.T, g *model.G) {
 		}
 		if x.NumPolygons() != len(g.C3) {
 			c.Fail("numparts", "%s: MultiPolygon.NumPolygons() = %d, want %d", how, x.NumPolygons(), len(g.C3))
+			return
+		}
+		for i := range g.C3 {
+			c.Count("part_accessor_checked")
+			if !expectGeom(c, fmt.Sprintf("%s, Polygon(%d)", how, i), x.Polygon(i), &model.G{Kind: model.Polygon, Layout: g.Layout, SRID: g.SRID, C2: g.C3[i]}, model.Opts{}) {
+				break
+			}
 		}
 	}
 }
